@@ -217,17 +217,17 @@ fn gen_case(r: &mut Rng, id: u64, thorough: bool, raw: bool) -> Value {
         let front = i < 3;
         let pick = if front { 0 } else { r.below(20) };
         let op = match pick {
-            0..=4 => {
+            0..=3 => {
                 let t = utags(r);
                 note(&mut written, &t);
                 json!({"op": "insert_key", "n": *r.pick(names), "key": r.below(keys.len()), "meta": gen_meta(r), "ref": gen_ref(r), "t": t, "e": gen_expiry(r, false)})
             }
-            5..=7 => {
+            4..=6 => {
                 let t = utags(r);
                 note(&mut written, &t);
                 json!({"op": "update_key", "n": *r.pick(names), "meta": gen_meta(r), "t": t, "e": gen_expiry(r, true)})
             }
-            8 => json!({"op": "remove_key", "n": *r.pick(names)}),
+            7 | 8 => json!({"op": "remove_key", "n": *r.pick(names)}),
             9..=11 => json!({"op": "fetch_key", "n": *r.pick(names)}),
             12 if raw => {
                 // a Kms row written behind the key API
@@ -262,7 +262,8 @@ fn gen_case(r: &mut Rng, id: u64, thorough: bool, raw: bool) -> Value {
                     6 => match r.below(3) { 0 => json!({"and": []}), 1 => json!({"or": []}), _ => json!({"exist": []}) },
                     _ => filter(r, 2),
                 };
-                let lim = match r.below(8) { 0 => json!(0), 1 => json!(1), 2 => json!(2), 3 if r.chance(1, 3) => json!(-1), _ => Value::Null };
+                // (with rows written behind the API, WHICH rows a limit keeps decides whether the call fails: no limit there)
+                let lim = if raw { Value::Null } else { match r.below(8) { 0 => json!(0), 1 => json!(1), 2 => json!(2), 3 if r.chance(1, 3) => json!(-1), _ => Value::Null } };
                 json!({"op": "fetch_all_keys", "alg": alg, "thumb": thumb, "f": f, "lim": lim})
             }
         };
@@ -494,6 +495,9 @@ pub fn exec(case: &Value, tag: &str) -> Value {
                 }
             };
             if let Some(e) = got.get("err") { *feat.entry(format!("err:{}", e.as_str().unwrap_or("?"))).or_insert(0) += 1; }
+            // which rows a LIMIT without ORDER BY keeps is unspecified: the correspondence compares their number only
+            let limited = name == "fetch_all_keys" && op["lim"].as_i64().map_or(false, |l| l >= 0) && got.get("rows").is_some();
+            let emitted = if limited { json!({"count": got["rows"].as_array().map_or(0, |a| a.len())}) } else { got.clone() };
 
             // ---- the property's verdict on this call ----
             let now_i = o.now;
@@ -605,7 +609,7 @@ pub fn exec(case: &Value, tag: &str) -> Value {
                 }
                 _ => { *feat.entry("oracle-undetermined".into()).or_insert(0) += 1; }
             }
-            outs.push(got);
+            outs.push(emitted);
         }
         drop(store);
         backend.close().await.ok();
